@@ -60,6 +60,27 @@ func evaluate(col *vc.Collector, sc *Scenario, res runResult) {
 			col.Count("C04", "scenarios-complete", 1)
 		}
 	}
+	if sc.hasParallelBoundary() {
+		// an operation ran at the very instant a timer fired, in parallel with the timeout handling (C04 runs
+		// only). Timeouts are handled on the timer goroutine while the read pump / the application goroutine
+		// drive the same state machine: whatever the C04 monitor finds in such a history is the recorded finding
+		// "timeout-handled-in-parallel-with-another-event"; the other monitors are not applied to it
+		col.Count("C04", "histories-with-an-operation-in-parallel-with-a-timeout", 1)
+		fs := simkit.MonitorC04(evs, meta, func(a, b int) {}, func(k string) {})
+		kinds := map[string]bool{}
+		for _, f := range fs {
+			kinds[strings.SplitN(f.Sig, ":", 2)[0]] = true
+		}
+		if len(fs) > 0 {
+			var ks []string
+			for k := range kinds {
+				ks = append(ks, k)
+			}
+			col.Violation("C04", "timeout-handled-in-parallel-with-another-event", fmt.Sprintf("%d findings (%s), first: %s %s", len(fs), strings.Join(ks, ","), fs[0].Sig, fs[0].Detail), sc.ID, wit())
+		}
+		report(simkit.MonitorC08(evs))
+		return
+	}
 	report(simkit.MonitorC01(evs, meta, func(k string) { col.Class("C01", k); col.Count("C01", k, 1) }))
 	report(simkit.MonitorC04(evs, meta,
 		func(a, b int) { col.Class("C04", fmt.Sprintf("%s:edge:%d->%d", role, a, b)) },
@@ -139,7 +160,7 @@ func TestEngine(t *testing.T) {
 			id := fmt.Sprintf("%s/%d/storm", engine, i)
 			vc.Scn(id)
 			wd.Begin(id, nil)
-			runStorm(t, vc.NewRand(run_.Seed, engine+"-storm", uint64(i)), id, col)
+			runStorm(t, vc.NewRand(run_.Seed, engine+"-storm", uint64(i)), id, col, "C20", wd)
 			wd.End()
 		}
 		col.Write(true)
@@ -210,6 +231,21 @@ func TestEngine(t *testing.T) {
 		}
 		if i%2000 == 0 {
 			col.Write(false)
+		}
+	}
+	if run_.Prop == "C08" {
+		// the receive loop against firing timers and application goroutines (real parallelism inside the
+		// bubble): a receive call that never returns is decided by the watchdog
+		n := run_.N(2000, 60000)
+		for i := 0; i < n; i++ {
+			if !run_.Mine(i) || total+i < start {
+				continue
+			}
+			id := fmt.Sprintf("%s/%d/storm", engine, total+i)
+			vc.Scn(id)
+			wd.Begin(id, nil)
+			runStorm(t, vc.NewRand(run_.Seed, engine+"-storm8", uint64(i)), id, col, "C08", wd)
+			wd.End()
 		}
 	}
 	col.Write(true)
